@@ -73,6 +73,7 @@ type Task struct {
 	prio    int64
 	name    string
 	started bool
+	done    chan struct{} // closed (race-visibly) when the task's function has returned
 }
 
 // Strategy selects how scheduling decisions are made.
@@ -309,7 +310,7 @@ func (r *Run) newTask(name string) *Task {
 	if r.ntasks >= maxTasks {
 		panic("simrt: too many tasks")
 	}
-	t := &Task{id: r.ntasks, wake: make(chan struct{}, 1), name: name}
+	t := &Task{id: r.ntasks, wake: make(chan struct{}, 1), name: name, done: make(chan struct{})}
 	if r.cfg.Strategy == StratPCT {
 		t.prio = int64(16 + r.tape.Choose(KPrio, 1<<16))
 	}
@@ -330,6 +331,7 @@ func (r *Run) taskMain(t *Task, fn func()) {
 			r.panics = append(r.panics, TaskPanic{Task: t.name, Value: fmt.Sprint(e), Stack: string(debug.Stack())})
 			r.panicMu.Unlock()
 		}
+		close(t.done)
 		r.exitTask(t)
 	}()
 	if r.isAborting() {
@@ -707,12 +709,19 @@ func GoJoinable(name string, fn func()) *Handle {
 	return &Handle{t}
 }
 
-// Join blocks the calling task until h's task has finished. It creates no
-// race-visible happens-before edge; callers that read the joined task's
-// results must do so after Exec returns or use their own synchronisation.
-//
-//go:norace
+// Join blocks the calling task until h's task has finished. Like a real
+// join (WaitGroup.Wait, channel receive) it orders the end of the joined task
+// before the joiner's continuation for the race detector; it creates no edge
+// between the joined tasks themselves.
 func Join(h *Handle) {
+	joinModel(h)
+	if !Aborting() {
+		<-h.t.done
+	}
+}
+
+//go:norace
+func joinModel(h *Handle) {
 	r := run
 	if r == nil {
 		return
